@@ -27,7 +27,7 @@ ASSUMPTIONS = [
     'hierarchies CPython rejects and root modules named like summary pages are outside the alphabet',
 ]
 FLOOR = {'quick': 300, 'thorough': 1500}
-SPACE = {'quick': 'histories <= 3 over 41 events x 2 schedules', 'thorough': 'histories <= 4 over 41 events x 2 schedules'}
+SPACE = {'quick': 'histories <= 3 over 42 events x 2 schedules', 'thorough': 'histories <= 4 over 42 events x 2 schedules'}
 
 EVENTS: Dict[str, List[Tuple[str, str]]] = {
     'defC':   [('a', 'class X:\n    def m(self): pass\n')],
@@ -71,6 +71,7 @@ EVENTS: Dict[str, List[Tuple[str, str]]] = {
     'mod-decorated-fn': [('a', '@staticmethod\ndef smf(): pass\n@classmethod\ndef cmf(cls): pass\nclass Hd:\n    @staticmethod\n    def sm(): pass\n')],
     'move-onto-local': [('p', 'class X:\n    def inp(self): pass\n'), ('a', 'from p import X\n__all__ = ["X"]\n')],
     'dup-root-module': [('r', 'class R1:\n    def m(self): pass\n'), ('r#2', 'class R2:\n    def n(self): pass\nfrom p.a import X as RX\n')],
+    'dup-root-package-deep': [('rp/x', 'class PX1:\n    def m(self): pass\n'), ('rp/s/deep', 'class Deep1:\n    def legacy(self): pass\ndef legacy_start(): pass\n'), ('rp#2/x', 'class PX2:\n    def n(self): pass\n')],
     'dup-root-package': [('rp/x', 'class PX1:\n    def m(self): pass\n'), ('rp#2/x', 'class PX2:\n    def n(self): pass\n')],
     'dotted-field': [('a', 'class X:\n    """\n    @ivar foo.bar: x\n    @type foo.bar: int\n    """\n    class foo:\n        bar = 1\n')],
     'zope-attr-over-method': [('b', 'from zope.interface import Interface, Attribute\nclass IM(Interface):\n    def x(): pass\n    x = Attribute("doc")\n    y = Attribute("doc")\n    def y(): pass\n')],
@@ -88,7 +89,7 @@ ORDERS = [('a', 'b'), ('b', 'a')]
 
 
 def program(hist: Sequence[str]) -> Dict[str, str]:
-    src = {'p': '', 'a': '', 'b': '', 'r': '', 'r#2': '', 'rp/x': '', 'rp#2/x': '', 'pq/__init__': '', 'pq/_i': '', 'pq/impl': ''}
+    src = {'p': '', 'a': '', 'b': '', 'r': '', 'r#2': '', 'rp/x': '', 'rp#2/x': '', 'rp/s/deep': '', 'pq/__init__': '', 'pq/_i': '', 'pq/impl': ''}
     top = {'p': '', 'a': '', 'b': ''}
     for e in hist:
         for m, s in EVENTS[e]:
@@ -114,6 +115,12 @@ def build(src: Dict[str, str], order: Sequence[str]) -> Any:
         if src.get(key):
             b.addModuleString('', 'rp', None, is_package=True)
             b.addModuleString(src[key], 'x' if key == 'rp/x' else 'y', 'rp')
+            if key == 'rp/x' and src.get('rp/s/deep'):
+                # the first copy of the package also has a sub-package with a module two levels down
+                b.addModuleString('', 's', 'rp', is_package=True)
+                b.addModuleString(src['rp/s/deep'], 'deep', 'rp.s')
+                b.addModuleString('', 't', 'rp.s', is_package=True)
+                b.addModuleString(src['rp/s/deep'].replace('Deep', 'Deeper'), 'deeper', 'rp.s.t')
     if src.get('pq/_i'):
         b.addModuleString(src['pq/__init__'], 'pq', None, is_package=True)
         b.addModuleString(src['pq/_i'], '_i', 'pq')
